@@ -7,8 +7,10 @@ package main
 
 import (
 	"bytes"
+	"encoding/json"
 	"flag"
 	"fmt"
+	"os"
 	"runtime"
 	"sort"
 	"strings"
@@ -37,6 +39,11 @@ var (
 	replay = flag.String("replay", "", "")
 )
 
+// smallPool: the last batches of a run are processes whose process-wide goroutine pool is this small
+// (erpc.SetGopool before the first peer exists); the scenarios they run fill what is left of it with
+// parked goroutines (erpc.Go) so that messages are handled by the reading goroutines themselves.
+const smallPool = 16
+
 var clock int64
 
 func stamp() int64 { return atomic.AddInt64(&clock, 1) }
@@ -51,13 +58,36 @@ type callRec struct {
 	completed int64
 	cmd       erpc.CallCmd
 	out       []byte
+	inline    int32 // 1: the handler ran on the session's reading goroutine (the pool had no room)
 }
 
 type caseState struct {
 	mu    sync.Mutex
 	calls map[string]*callRec
-	hold  chan struct{} // handlers park on it when non-nil ("inside" placement)
+	holdX chan struct{} // handlers of the closing side park on it when non-nil ("inside" placement)
+	holdY chan struct{} // handlers of the other side (calls issued by the closing side) park on it when non-nil
 	sleep func(tok string)
+
+	watchInline bool  // count the handlers that run on a reading goroutine
+	inline      int64 // call/push handlers run by a reading goroutine
+	latePush    int64 // pushes handled that arrived while Close() was waiting
+}
+
+// onReader tells whether the caller runs on a session's reading goroutine (the message was handled inline
+// because the goroutine pool had no room) rather than on a pool goroutine of its own.
+func onReader() bool {
+	var pcs [64]uintptr
+	n := runtime.Callers(2, pcs[:])
+	fr := runtime.CallersFrames(pcs[:n])
+	for {
+		f, more := fr.Next()
+		if strings.HasSuffix(f.Function, ".startReadAndHandle") {
+			return true
+		}
+		if !more {
+			return false
+		}
+	}
 }
 
 var cur atomic.Value // *caseState
@@ -81,9 +111,23 @@ func H(ctx erpc.CallCtx, arg *[]byte) ([]byte, *erpc.Status) {
 	if r != nil {
 		atomic.StoreInt64(&r.enter, stamp())
 	}
+	if cs != nil && cs.watchInline && onReader() {
+		atomic.AddInt64(&cs.inline, 1)
+		if r != nil {
+			atomic.StoreInt32(&r.inline, 1)
+		}
+	}
 	if cs != nil {
 		cs.mu.Lock()
-		h := cs.hold
+		var h chan struct{}
+		if r != nil {
+			switch r.dir {
+			case "toX":
+				h = cs.holdX
+			case "fromX":
+				h = cs.holdY
+			}
+		}
 		sl := cs.sleep
 		cs.mu.Unlock()
 		if h != nil {
@@ -99,8 +143,16 @@ func H(ctx erpc.CallCtx, arg *[]byte) ([]byte, *erpc.Status) {
 	return []byte("R:" + tok), nil
 }
 
-// HP is a push handler (earlier one-way traffic).
-func HP(ctx erpc.PushCtx, arg *[]byte) *erpc.Status { return nil }
+// HP is a push handler (earlier one-way traffic, and pushes that arrive while Close() waits).
+func HP(ctx erpc.PushCtx, arg *[]byte) *erpc.Status {
+	if cs := state(); cs != nil && string(*arg) == "late" {
+		atomic.AddInt64(&cs.latePush, 1)
+		if cs.watchInline && onReader() {
+			atomic.AddInt64(&cs.inline, 1)
+		}
+	}
+	return nil
+}
 
 type scenario struct {
 	Proto   string `json:"proto"`
@@ -114,9 +166,58 @@ type scenario struct {
 	PrePush int    `json:"pushes_sent_by_closing_side_before"` // earlier one-way traffic of the closing side on the same sessions
 	AgeMS   int    `json:"closing_side_session_age_ms"`        // > 0: the closing side's sessions have this age; it runs out while Close() waits for the handlers
 	Cut     string `json:"connection_lost_while_close_waits"`  // "", "eof", "reset": the far side's connection ends while Close() waits for the handlers (replies may be lost then; Close still waits)
+	// Pool > 0: the process-wide goroutine pool has this size (set before the first peer of the process exists).
+	Pool int `json:"goroutine_pool_size"`
+	// Fill: the rest of that pool is occupied by parked goroutines (erpc.Go until it reports no room), so that
+	// messages arriving afterwards are handled by the reading goroutine of their session:
+	// "before-the-calls" (every call is handled inline: one handler per session is entered, on the reader) or
+	// "after-the-handlers-entered" (the handlers entered before Close() own pool goroutines; what arrives later is handled inline).
+	Fill string `json:"pool_filled"`
+	// Late: what arrives on the closing sessions while Close() waits for the handlers entered before it:
+	// "call", "push", "mixed" (calls and pushes alternating; with "mixed" also the replies), or
+	// "reply" (the replies to the calls the closing side issued before Close()).
+	Late  string `json:"arrivals_while_close_waits"`
+	LateN int    `json:"arrivals_per_session"`
+}
+
+// ext: scenarios of the extended flow (the two sides' handlers are parked separately; the pool may be filled;
+// messages may arrive while Close() waits)
+func (sc scenario) ext() bool { return sc.Fill != "" || sc.Late != "" }
+
+// occupy parks goroutines of the process-wide pool until it has no room left; it returns their release channels.
+func occupy() (chs []chan struct{}, full bool) {
+	for len(chs) < 4*smallPool {
+		ch := make(chan struct{})
+		if !erpc.Go(func() { <-ch }) {
+			return chs, true
+		}
+		chs = append(chs, ch)
+	}
+	return chs, false
 }
 
 type viol struct{ sym, what string }
+
+// fp is the structural fingerprint of a violation: protocol / parking point / closer [/ pool and arrival class] / symptom.
+func (sc scenario) fp(sym string) string {
+	cfg := ""
+	switch {
+	case sc.Fill != "":
+		cfg = "pool-full-" + sc.Fill
+	case sc.Pool > 0:
+		cfg = "small-pool"
+	}
+	if sc.Late != "" {
+		if cfg != "" {
+			cfg += "+"
+		}
+		cfg += "late-" + sc.Late
+	}
+	if cfg != "" {
+		cfg += "/"
+	}
+	return fmt.Sprintf("C08/%s/%s/%s/%s%s", sc.Proto, sc.Point, sc.Closer, cfg, sym)
+}
 
 func settle() quiesce.Result { return quiesce.Wait(quiesce.Options{Timeout: 30 * time.Second}) }
 
@@ -185,10 +286,23 @@ func runScenario(id string, sc scenario, r *core.Rand) {
 		settle()
 	}
 	total := (sc.K + sc.K2) * sc.Sess
+	ext := sc.ext()
+	cs.watchInline = sc.Pool > 0
+	// in the extended flow the other side's handlers (for the calls the closing side issued) park only when their
+	// replies are to arrive while Close() waits
+	holdYLate := ext && sc.K2 > 0 && (sc.Late == "reply" || sc.Late == "mixed")
+	// expectX: how many handlers of the closing side reach the parking point before Close()
+	expectX := sc.K * sc.Sess
+	if sc.Fill == "before-the-calls" && sc.K > 0 {
+		expectX = sc.Sess // the reading goroutine of each session handles its first call itself and parks in it
+	}
 	var trap *gates.Trap
 	switch sc.Point {
 	case "inside":
-		cs.hold = make(chan struct{})
+		cs.holdX = make(chan struct{})
+		if !ext {
+			cs.holdY = cs.holdX
+		}
 	case "random":
 		rs := uint64(r.Uint64() | 1)
 		var rmu sync.Mutex
@@ -206,10 +320,20 @@ func runScenario(id string, sc scenario, r *core.Rand) {
 			}
 		}
 	default:
-		trap = gates.ParkN(sc.Point, total, isAny)
+		if ext {
+			trap = gates.ParkN(sc.Point, expectX, isX)
+		} else {
+			trap = gates.ParkN(sc.Point, total, isAny)
+		}
 	}
-	_ = isX
-	done := make(chan erpc.CallCmd, total+8)
+	if holdYLate {
+		cs.holdY = make(chan struct{})
+	}
+	lateTotal := 0
+	if sc.Late != "" && sc.Late != "reply" {
+		lateTotal = sc.LateN * sc.Sess
+	}
+	done := make(chan erpc.CallCmd, total+lateTotal+8)
 	n := 0
 	issue := func(sess erpc.Session, dir string, li int) {
 		n++
@@ -221,36 +345,131 @@ func runScenario(id string, sc scenario, r *core.Rand) {
 		rec.issued = stamp()
 		rec.cmd = sess.AsyncCall(route, []byte(tok), &rec.out, done, erpc.WithBodyCodec(codec.ID_PLAIN))
 	}
-	for li, l := range links {
-		for i := 0; i < sc.K; i++ {
-			issue(l.A, "toX", li)
-		}
-		for i := 0; i < sc.K2; i++ {
-			issue(l.B, "fromX", li)
-		}
-	}
-	// wait until the handlers are where the scenario wants them (bounded; otherwise infeasible)
-	arrived := false
-	switch {
-	case sc.Point == "random":
-		arrived = true
-	case trap != nil:
-		arrived = bed.WaitUntil(20*time.Second, func() bool { return trap.Count() >= total })
-	default:
-		arrived = bed.WaitUntil(20*time.Second, func() bool {
-			c := 0
-			cs.mu.Lock()
-			for _, rc := range cs.calls {
-				if atomic.LoadInt64(&rc.enter) > 0 {
-					c++
-				}
+	enteredX := func() int {
+		c := 0
+		cs.mu.Lock()
+		for _, rc := range cs.calls {
+			if rc.dir == "toX" && atomic.LoadInt64(&rc.enter) > 0 {
+				c++
 			}
-			cs.mu.Unlock()
-			return c >= total
-		})
+		}
+		cs.mu.Unlock()
+		return c
 	}
-	if sc.Point != "random" {
+	// fillers: parked goroutines occupying what is left of the (small) process-wide pool
+	var fillers []chan struct{}
+	free := func(k int) {
+		for ; k > 0 && len(fillers) > 0; k-- {
+			close(fillers[0])
+			fillers = fillers[1:]
+		}
+	}
+	infeasible := ""
+	fill := func() {
 		settle()
+		var full bool
+		fillers, full = occupy()
+		if !full {
+			infeasible = "the goroutine pool of this process is not small: it could not be filled"
+		}
+		core.Add("goroutines_parked_to_fill_the_pool", int64(len(fillers)))
+	}
+	arrived := false
+	if !ext {
+		for li, l := range links {
+			for i := 0; i < sc.K; i++ {
+				issue(l.A, "toX", li)
+			}
+			for i := 0; i < sc.K2; i++ {
+				issue(l.B, "fromX", li)
+			}
+		}
+		// wait until the handlers are where the scenario wants them (bounded; otherwise infeasible)
+		switch {
+		case sc.Point == "random":
+			arrived = true
+		case trap != nil:
+			arrived = bed.WaitUntil(20*time.Second, func() bool { return trap.Count() >= total })
+		default:
+			arrived = bed.WaitUntil(20*time.Second, func() bool {
+				c := 0
+				cs.mu.Lock()
+				for _, rc := range cs.calls {
+					if atomic.LoadInt64(&rc.enter) > 0 {
+						c++
+					}
+				}
+				cs.mu.Unlock()
+				return c >= total
+			})
+		}
+		if sc.Point != "random" {
+			settle()
+		}
+	} else {
+		if sc.Fill == "before-the-calls" {
+			fill()
+		}
+		// the calls towards the closing side: their handlers park (in pool goroutines, or on the reader when the pool is full)
+		for li, l := range links {
+			for i := 0; i < sc.K; i++ {
+				issue(l.A, "toX", li)
+			}
+		}
+		if trap != nil {
+			arrived = bed.WaitUntil(20*time.Second, func() bool { return trap.Count() >= expectX })
+		} else {
+			arrived = bed.WaitUntil(20*time.Second, func() bool { return enteredX() >= expectX })
+		}
+		settle()
+		if sc.Fill == "after-the-handlers-entered" {
+			fill()
+		}
+		// the calls of the closing side, issued before Close(): with a full pool the other side's reader handles them itself
+		for li, l := range links {
+			for i := 0; i < sc.K2; i++ {
+				issue(l.B, "fromX", li)
+			}
+		}
+		settle()
+		if sc.Fill != "" && sc.Closer == "peer" {
+			// Peer.Close() closes its sessions on pool goroutines (and spins until it gets them): it finds one per session
+			if len(fillers) < sc.Sess {
+				infeasible = "the pool had no room left for the goroutines Peer.Close() needs"
+			}
+			free(sc.Sess)
+			settle()
+		}
+	}
+	releaseAll := func() {
+		if trap != nil {
+			trap.Release()
+		}
+		cs.mu.Lock()
+		hx, hy := cs.holdX, cs.holdY
+		cs.holdX, cs.holdY = nil, nil
+		cs.mu.Unlock()
+		if hx != nil {
+			close(hx)
+		}
+		if hy != nil && hy != hx {
+			close(hy)
+		}
+		free(len(fillers))
+	}
+	if ext && (infeasible != "" || !arrived) {
+		// nothing is judged: unwind before Close() is involved
+		if infeasible == "" {
+			infeasible = fmt.Sprintf("handlers did not all reach %s (%d expected)", sc.Point, expectX)
+		}
+		releaseAll()
+		settle()
+		gates.Reset()
+		py.Close()
+		px.Close()
+		settle()
+		core.Result(core.R{ID: id, Verdict: core.Inconclusive, What: "ordering infeasible: " + infeasible})
+		return
 	}
 	closeCall := stamp()
 	var closeRet int64
@@ -277,15 +496,7 @@ func runScenario(id string, sc scenario, r *core.Rand) {
 		// session simply ended by age before the close: not a graceful close, nothing to judge) ...
 		age := time.Duration(sc.AgeMS) * time.Millisecond
 		if time.Since(connected) > age-200*time.Millisecond {
-			if trap != nil {
-				trap.Release()
-			}
-			cs.mu.Lock()
-			if cs.hold != nil {
-				close(cs.hold)
-				cs.hold = nil
-			}
-			cs.mu.Unlock()
+			releaseAll()
 			<-closed
 			settle()
 			gates.Reset()
@@ -323,17 +534,32 @@ func runScenario(id string, sc scenario, r *core.Rand) {
 	} else {
 		close(closed2)
 	}
+	// further messages arrive on the closing sessions while Close() waits for the handlers that were entered before it
+	// (with a full pool the reading goroutine handles each of them itself); Close() keeps waiting
+	if sc.Late != "" {
+		for li, l := range links {
+			for j := 0; j < sc.LateN && sc.Late != "reply"; j++ {
+				if sc.Late == "call" || (sc.Late == "mixed" && j%2 == 0) {
+					issue(l.A, "late", li)
+				} else {
+					l.A.Push(proute, []byte("late"), erpc.WithBodyCodec(codec.ID_PLAIN))
+				}
+			}
+		}
+		if holdYLate {
+			// the other side's handlers finish now: the replies to the closing side's calls arrive while Close() waits
+			cs.mu.Lock()
+			hy := cs.holdY
+			cs.holdY = nil
+			cs.mu.Unlock()
+			close(hy)
+		}
+		settle()
+		core.Add("messages_sent_to_the_closing_side_while_close_waited", int64(lateTotal))
+	}
 	earlyReturn := (atomic.LoadInt64(&closeRet) != 0 || atomic.LoadInt64(&close2Ret) != 0) && sc.Point != "random" && sc.Point != "handlecall.afterReply" && total > 0
 	// release the handlers
-	if trap != nil {
-		trap.Release()
-	}
-	cs.mu.Lock()
-	if cs.hold != nil {
-		close(cs.hold)
-		cs.hold = nil
-	}
-	cs.mu.Unlock()
+	releaseAll()
 	q := settle()
 	gates.Reset()
 	if !q.Quiescent || !arrived {
@@ -349,14 +575,14 @@ func runScenario(id string, sc scenario, r *core.Rand) {
 	select {
 	case <-closed:
 	default:
-		core.Result(core.R{ID: id, Verdict: core.Violated, FP: fmt.Sprintf("C08/%s/%s/%s/close-hung", sc.Proto, sc.Point, sc.Closer), What: "Close() did not return at quiescence after all handlers were released", Desc: sc})
+		core.Result(core.R{ID: id, Verdict: core.Violated, FP: sc.fp("close-hung"), What: "Close() did not return at quiescence after all handlers were released", Desc: sc})
 		return
 	}
 	cret := atomic.LoadInt64(&closeRet)
 	select {
 	case <-closed2:
 	default:
-		core.Result(core.R{ID: id, Verdict: core.Violated, FP: fmt.Sprintf("C08/%s/%s/%s/close-hung", sc.Proto, sc.Point, sc.Closer), What: "the second Close() did not return at quiescence after all handlers were released", Desc: sc})
+		core.Result(core.R{ID: id, Verdict: core.Violated, FP: sc.fp("close-hung"), What: "the second Close() did not return at quiescence after all handlers were released", Desc: sc})
 		return
 	}
 	if c2 := atomic.LoadInt64(&close2Ret); c2 != 0 && c2 < cret {
@@ -375,7 +601,7 @@ func runScenario(id string, sc scenario, r *core.Rand) {
 		return 0
 	}
 	var vs []viol
-	var nEntered, nOK int
+	var nEntered, nOK, nLateOK, nLateErr, nLateOpen int
 	cs.mu.Lock()
 	recs := make([]*callRec, 0, len(cs.calls))
 	for _, rc := range cs.calls {
@@ -384,6 +610,18 @@ func runScenario(id string, sc scenario, r *core.Rand) {
 	cs.mu.Unlock()
 	sort.Slice(recs, func(i, j int) bool { return recs[i].issued < recs[j].issued })
 	for _, rc := range recs {
+		if rc.dir == "late" {
+			// a call that arrived after Close() was called: the property says nothing about its outcome; it is only counted
+			switch {
+			case !isDone(rc.cmd.Done()):
+				nLateOpen++
+			case rc.cmd.Status().OK() && string(rc.out) == "R:"+rc.tok:
+				nLateOK++
+			default:
+				nLateErr++
+			}
+			continue
+		}
 		if !isDone(rc.cmd.Done()) {
 			// a hang is C02's clause; it also violates "still receives its genuine reply"
 			vs = append(vs, viol{"call-incomplete", fmt.Sprintf("call %s (%s) incomplete at quiescence", rc.tok, rc.dir)})
@@ -424,14 +662,34 @@ func runScenario(id string, sc scenario, r *core.Rand) {
 	if earlyReturn && nEntered > 0 {
 		vs = append(vs, viol{"close-returned-while-handlers-parked", fmt.Sprintf("Close() had returned (stamp %d) while %d handlers entered before it were still parked", cret, nEntered)})
 	}
-	core.Add("calls", int64(len(recs)))
+	nLate := nLateOK + nLateErr + nLateOpen
+	inline := atomic.LoadInt64(&cs.inline)
+	core.Add("calls", int64(len(recs)-nLate))
 	core.Add("calls_entered_before_close", int64(nEntered))
 	core.Add("calls_genuine_reply", int64(nOK))
+	if sc.Late != "" {
+		core.Add("calls_arrived_while_close_waited", int64(nLate))
+		core.Add("calls_arrived_while_close_waited_genuine_reply", int64(nLateOK))
+		core.Add("pushes_handled_that_arrived_while_close_waited", atomic.LoadInt64(&cs.latePush))
+	}
+	if sc.Pool > 0 {
+		core.Add("scenarios_in_a_process_with_a_small_goroutine_pool", 1)
+		core.Add("handlers_run_by_a_reading_goroutine", inline)
+	}
 	py.Close()
 	px.Close()
+	if sc.Pool > 0 {
+		settle() // the pool goroutines of this scenario are idle again before the next one starts
+	}
 	sig := fmt.Sprintf("%s/%s/%s/k%d+%d/s%d/d%d/pp%d", sc.Proto, sc.Point, sc.Closer, sc.K, sc.K2, sc.Sess, sc.DelayPM, sc.PrePush) + fmt.Sprintf("/age%d/cut%s", sc.AgeMS, sc.Cut)
+	if sc.Pool > 0 || sc.ext() {
+		sig += fmt.Sprintf("/pool%d/%s/late-%s%d", sc.Pool, sc.Fill, sc.Late, sc.LateN)
+	}
 	if len(vs) == 0 {
 		nontrivial := nEntered > 0 || sc.K2 > 0
+		if sc.Fill != "" && inline == 0 {
+			nontrivial = false // the full pool made no handler run on a reading goroutine
+		}
 		if nontrivial {
 			core.Distinct("nontrivial", sig)
 		}
@@ -453,8 +711,9 @@ func runScenario(id string, sc scenario, r *core.Rand) {
 			rid = fmt.Sprintf("%s#%d", id, i)
 			core.Begin(rid, sc)
 		}
-		core.Result(core.R{ID: rid, Verdict: core.Violated, FP: fmt.Sprintf("C08/%s/%s/%s/%s", sc.Proto, sc.Point, sc.Closer, k), What: groups[k][0].what,
-			Witness: map[string]interface{}{"count": len(groups[k]), "first": groups[k][0].what, "close_called": closeCall, "close_returned": cret}, Desc: sc, Sig: sig})
+		core.Result(core.R{ID: rid, Verdict: core.Violated, FP: sc.fp(k), What: groups[k][0].what,
+			Witness: map[string]interface{}{"count": len(groups[k]), "first": groups[k][0].what, "close_called": closeCall, "close_returned": cret,
+				"handlers_run_by_a_reading_goroutine": inline}, Desc: sc, Sig: sig})
 	}
 }
 
@@ -534,15 +793,131 @@ func main() {
 		scs = append(scs, scenario{Proto: protosQ[r0.Intn(len(protosQ))], K: 1 + r0.Intn(32), K2: r0.Intn(16), Point: "random", Closer: []string{"session", "peer"}[r0.Intn(2)],
 			Class: "random", Sess: 1 + r0.Intn(3), DelayPM: []int{0, 100, 300}[r0.Intn(3)]})
 	}
-	for i, sc := range scs {
-		if i%*nbatch != *batch {
-			continue
+	// further messages arrive on the closing sessions while Close() waits for the handlers entered before it: calls, pushes,
+	// the replies to the closing side's own calls (k handlers entered, n arrivals per session; n below, at and above k)
+	type lateVar struct {
+		k, k2 int
+		late  string
+		n     int
+	}
+	lateVars := []lateVar{{1, 0, "call", 1}, {1, 2, "reply", 0}, {4, 0, "push", 12}, {1, 1, "mixed", 4}, {4, 4, "mixed", 12}, {1, 0, "push", 1}, {2, 0, "call", 2}, {4, 3, "reply", 0}}
+	perCombo := 2
+	if *tier == "thorough" {
+		perCombo = len(lateVars)
+	}
+	lateScenarios := func(class, fill string, pool, perCombo int) (out []scenario) {
+		c := 0
+		for _, pn := range protosQ {
+			for _, pt := range []string{"inside", "handlecall.beforeReply"} {
+				for _, cl := range []string{"session", "peer", "double"} {
+					sess := 1
+					if cl == "peer" {
+						sess = 2
+					}
+					for v := 0; v < perCombo; v++ {
+						lv := lateVars[(c+v*3)%len(lateVars)]
+						out = append(out, scenario{Proto: pn, K: lv.k, K2: lv.k2, Point: pt, Closer: cl, Class: class, Sess: sess, Pool: pool, Fill: fill, Late: lv.late, LateN: lv.n})
+					}
+					c++
+				}
+			}
 		}
-		runScenario(fmt.Sprintf("s%04d", i), sc, core.NewRand(*seed, int64(i), 5))
-		if i < 3 {
-			core.Sample(sc)
+		return out
+	}
+	scs = append(scs, lateScenarios("placed-late-arrivals", "", 0, (perCombo+1)/2)...)
+
+	// pool scenarios: run by processes whose goroutine pool is small (the last batches), the rest of the pool filled with
+	// parked goroutines, so that messages are handled by the reading goroutines themselves
+	var pcs []scenario
+	pcs = append(pcs, lateScenarios("placed-pool-full-late-arrivals", "after-the-handlers-entered", smallPool, perCombo)...)
+	inlineKs := [][2]int{{1, 0}, {3, 2}, {1, 1}, {4, 0}}
+	perInline := 1
+	if *tier == "thorough" {
+		perInline = len(inlineKs)
+	}
+	c := 0
+	for _, pn := range protosQ {
+		for _, pt := range []string{"inside", "handlecall.beforeReply"} {
+			for _, cl := range []string{"session", "peer", "double"} {
+				sess := 1
+				if cl == "peer" {
+					sess = 2
+				}
+				for v := 0; v < perInline; v++ {
+					k := inlineKs[(c+v)%len(inlineKs)]
+					pcs = append(pcs, scenario{Proto: pn, K: k[0], K2: k[1], Point: pt, Closer: cl, Class: "placed-pool-full-handled-by-reader", Sess: sess, Pool: smallPool, Fill: "before-the-calls"})
+				}
+				c++
+			}
 		}
 	}
-	_ = strings.Join
+	nRandomPool := 8
+	if *tier == "thorough" {
+		nRandomPool = 120
+	}
+	r1 := core.NewRand(*seed, 78)
+	for i := 0; i < nRandomPool; i++ {
+		// more calls in flight than the pool has goroutines: handlers with PRNG durations run partly on pool goroutines, partly on the readers
+		pcs = append(pcs, scenario{Proto: protosQ[r1.Intn(len(protosQ))], K: 1 + r1.Intn(32), K2: r1.Intn(16), Point: "random", Closer: []string{"session", "peer"}[r1.Intn(2)],
+			Class: "random-small-pool", Sess: 1 + r1.Intn(2), DelayPM: []int{0, 100, 300}[r1.Intn(3)], Pool: smallPool})
+	}
+
+	if *replay != "" {
+		// re-run the one case recorded in a replay file (vcheck replay): its description is the scenario
+		var rf struct {
+			Case string   `json:"case"`
+			Desc scenario `json:"desc"`
+		}
+		b, err := os.ReadFile(*replay)
+		if err == nil {
+			err = json.Unmarshal(b, &rf)
+		}
+		if err != nil || rf.Desc.Proto == "" {
+			core.Fatalf("replay file %s: %v", *replay, err)
+		}
+		if rf.Desc.Pool > 0 {
+			erpc.SetGopool(rf.Desc.Pool, 0)
+		}
+		var idx int64
+		fmt.Sscanf(strings.TrimLeft(strings.SplitN(rf.Case, "#", 2)[0], "sp"), "%d", &idx)
+		if strings.HasPrefix(rf.Case, "p") {
+			idx += 100000
+		}
+		runScenario(strings.SplitN(rf.Case, "#", 2)[0], rf.Desc, core.NewRand(*seed, idx, 5))
+		core.Finish()
+		return
+	}
+
+	// the last nPool batches are the processes with a small pool: they run the pool scenarios, the others share the rest
+	nPool := 0
+	if *nbatch >= 2 {
+		nPool = 1 + *nbatch/32
+	}
+	if *batch >= *nbatch-nPool {
+		erpc.SetGopool(smallPool, 0) // before the first peer of the process exists
+		core.Add("batches_with_a_small_goroutine_pool", 1)
+		for i, sc := range pcs {
+			if i%nPool != *batch-(*nbatch-nPool) {
+				continue
+			}
+			runScenario(fmt.Sprintf("p%04d", i), sc, core.NewRand(*seed, int64(100000+i), 5))
+			if i < 2 {
+				core.Sample(sc)
+			}
+		}
+	} else {
+		for i, sc := range scs {
+			if i%(*nbatch-nPool) != *batch {
+				continue
+			}
+			runScenario(fmt.Sprintf("s%04d", i), sc, core.NewRand(*seed, int64(i), 5))
+			if i < 3 {
+				core.Sample(sc)
+			}
+		}
+	}
+	if nPool == 0 {
+		core.Add("pool_scenarios_not_run_in_a_single_batch_run", int64(len(pcs)))
+	}
 	core.Finish()
 }
